@@ -8,7 +8,7 @@ limit of a bounded sub-reader); the writer contracts say which bits a byte strin
 """
 import z3
 from pyvc.spec import contract, class_spec, inline_ok, loop_invariant
-from pyvc.values import Int, Bool, Str, Opt, ObjOf, Bytes, ByteArray, MutObjOf
+from pyvc.values import Int, Bool, Str, Opt, ObjOf, Bytes, ByteArray, MutInvObjOf
 from pyvc.speclib import AND, OR, NOT, IMPLIES, IFF, ITE, EQ, IS_NONE, VAL, ISINST, AS, LEN, FORALL_IDX, smt
 from pyvc import speclib
 from pyvc.bittheory import (BITSVAL, BITAT, DLEN, LSB, POW2, H_SPLIT, H_LSB_SPLIT, H_LSB_STEP, H_BEYOND, H_POW2_ADD, H_POW2_MONO)
@@ -57,6 +57,7 @@ def SAME_OPT_INT(a, b):
 class _ReaderSpec:
     fields = dict(_data=Bytes, _start_offset=Int, _bit_offset=Int, _bit_limit=Opt(Int))
     mutable = ["_bit_offset"]
+    invariant_at_calls = True
 
     def invariant(self):
         # positions are never negative and the reader never moves backwards
@@ -153,7 +154,7 @@ class _ReaderAlign:
 @contract(READER + ".bounded_subreader", props=P67)
 class _SubReader:
     params = dict(bit_count=Int)
-    returns = MutObjOf(READER)
+    returns = MutInvObjOf(READER)
     modifies = ["_bit_offset"]
 
     def post(s):
@@ -222,6 +223,7 @@ def PREFIX_PRESERVED(new, old, upto):
 class _WriterSpec:
     fields = dict(_buffer=ByteArray, _bit_offset=Int)
     mutable = ["_buffer", "_bit_offset"]
+    invariant_at_calls = True
 
     def invariant(self):
         # WFw: the buffer holds exactly the bytes touched so far and nothing beyond the write position
@@ -447,7 +449,7 @@ def WRITER_ADVANCED(s, n):
 
 @contract(SD + "_serialize_primitive", props=["C06"])
 class _SerPrim:
-    params = dict(writer=MutObjOf(WRITER), schema=ObjOf(SERIALIZABLE), value=Int)
+    params = dict(writer=MutInvObjOf(WRITER), schema=ObjOf(SERIALIZABLE), value=Int)
     modifies_params = {"writer": ["_buffer", "_bit_offset"]}
     instances = lambda: [{"schema": t, "value": k} for t in _prim_instances() for k in (Int, Str)]
     raises = {"ValueError": lambda s: AND(NOT(ISINST(s.schema, "VoidType")), NOT(IS_NUMERIC(s.value)))}
@@ -474,7 +476,7 @@ class _SerPrim:
 
 @contract(SD + "_deserialize_primitive", props=["C06", "C07"])
 class _DesPrim:
-    params = dict(reader=MutObjOf(READER), schema=ObjOf(SERIALIZABLE))
+    params = dict(reader=MutInvObjOf(READER), schema=ObjOf(SERIALIZABLE))
     modifies_params = {"reader": ["_bit_offset"]}
     instances = lambda: [{"schema": t} for t in _prim_instances()]
 
@@ -591,11 +593,10 @@ def _type_param(s):
 
 @contract(SD + "_deserialize_element", props=P7)
 class _DesElement:
-    params = dict(reader=MutObjOf(READER), element_type=ObjOf(SERIALIZABLE))
+    params = dict(reader=MutInvObjOf(READER), element_type=ObjOf(SERIALIZABLE))
     returns = AnyValue
     modifies_params = {"reader": ["_bit_offset"]}
-    raises_only_if = {"SerDesError": lambda s: NESTED(s.element_type), "ValueError": lambda s: NESTED(s.element_type),
-                      "TypeError": lambda s: NESTED(s.element_type)}
+    raises_only_if = {"SerDesError": lambda s: NESTED(s.element_type), "ValueError": lambda s: NESTED(s.element_type)}
 
     def pre(s):
         # model invariant: element / field types are never service types (ArrayType / CompositeType constructors)
@@ -607,11 +608,14 @@ class _DesElement:
 
 @contract(SD + "_deserialize_field_value", props=P7)
 class _DesField:
-    params = dict(reader=MutObjOf(READER), field_type=ObjOf(SERIALIZABLE))
+    params = dict(reader=MutInvObjOf(READER), field_type=ObjOf(SERIALIZABLE))
     returns = AnyValue
     modifies_params = {"reader": ["_bit_offset"]}
-    raises_only_if = {"SerDesError": lambda s: NESTED(s.field_type), "ValueError": lambda s: NESTED(s.field_type),
-                      "TypeError": lambda s: NESTED(s.field_type)}
+    raises_only_if = {"SerDesError": lambda s: NESTED(s.field_type), "ValueError": lambda s: NESTED(s.field_type)}
+
+    def pre(s):
+        # model invariant: field types are never service types (CompositeType constructors, C02 `fields-serializable`)
+        return {"serializable": NOT(ISINST(s.field_type, "ServiceType"))}
 
     def post(s):
         return DES_POST2(s, s.field_type)
@@ -624,7 +628,7 @@ def PREFIX_READ(o, t):
 
 @contract(SD + "_deserialize_array", props=P7)
 class _DesArray:
-    params = dict(reader=MutObjOf(READER), schema=ObjOf(ARRAY))
+    params = dict(reader=MutInvObjOf(READER), schema=ObjOf(ARRAY))
     returns = AnyValue
     modifies_params = {"reader": ["_bit_offset"]}
     raises_only_if = {
@@ -633,7 +637,6 @@ class _DesArray:
                                              lambda: PREFIX_READ(s.old.reader, s.schema) > s.schema._capacity),
                                          NESTED(s.schema._element_type)),
         "SerDesError": lambda s: NESTED(s.schema._element_type),
-        "TypeError": lambda s: NESTED(s.schema._element_type),
         # undecodable UTF-8 (UnicodeDecodeError is a ValueError); "unknown array type" for a class that is neither
         "ValueError": lambda s: OR(NESTED(s.schema._element_type), ISINST(s.schema._element_type, "UTF8Type", "ByteType"),
                                    NOT(ISINST(s.schema, "FixedLengthArrayType", "VariableLengthArrayType"))),
@@ -661,25 +664,22 @@ def _des_array_loop(s):
 
 @contract(SD + "_deserialize_composite", props=P7)
 class _DesComposite:
-    params = dict(reader=MutObjOf(READER), schema=ObjOf(COMPOSITE))
+    params = dict(reader=MutInvObjOf(READER), schema=ObjOf(COMPOSITE))
     returns = AnyValue
     modifies_params = {"reader": ["_bit_offset"]}
-    # TypeError: raised here only for a service type; a *field* of service type would propagate one too - impossible
-    # under the model invariant `fields-serializable` of the composite constructors (C02), which is not connected to the
-    # copying `fields` accessor here (documented gap: nested TypeError is allowed by this contract)
-    raises_only_if = {"SerDesError": lambda s: True, "ValueError": lambda s: True, "TypeError": lambda s: True}
+    # TypeError iff the type is a service type: fields / inner types are never services (C02 class invariants)
+    raises = {"TypeError": lambda s: ISINST(s.schema, "ServiceType")}
+    raises_only_if = {"SerDesError": lambda s: True, "ValueError": lambda s: True}
     # rejected, not clamped (exceptions raised by this function itself, as opposed to nested objects)
     raises_here = {
         "DelimiterHeaderError": lambda s: AND(ISINST(s.schema, "DelimitedType"),
                                               lambda: 8 * HEADER_VALUE(s.old.reader, s.schema) > REMAINING_AFTER(s.old.reader, 32)),
         "UnionTagError": lambda s: AND(ISINST(s.schema, "UnionType"), lambda: TAG_READ(s.old.reader, s.schema) >= LEN(FIELDS(s.schema))),
         "ValueError": lambda s: NOT(ISINST(s.schema, "DelimitedType", "UnionType", "StructureType", "ServiceType")),
-        "TypeError": lambda s: ISINST(s.schema, "ServiceType"),
     }
 
     def post(s):
         d = DES_POST2(s, s.schema)
-        d["not-a-service"] = NOT(ISINST(s.schema, "ServiceType"))
         d["tag-not-clamped"] = IMPLIES(ISINST(s.schema, "UnionType"),
                                        lambda: TAG_READ(s.old.reader, s.schema) < LEN(FIELDS(s.schema)))
         return d
@@ -716,9 +716,9 @@ class _Deserialize:
     params = dict(schema=ObjOf(COMPOSITE), data=Bytes, with_delimiter_header=Bool)
     instances = lambda: [{"data": Bytes}, {"data": ByteArray}]
     returns = AnyValue
-    raises_only_if = {"SerDesError": lambda s: True, "ValueError": lambda s: True, "TypeError": lambda s: True}
+    raises = {"TypeError": lambda s: ISINST(s.schema, "ServiceType")}
+    raises_only_if = {"SerDesError": lambda s: True, "ValueError": lambda s: True}
     raises_here = {
-        "TypeError": lambda s: ISINST(s.schema, "ServiceType"),
         "ValueError": lambda s: AND(s.with_delimiter_header, NOT(ISINST(s.schema, "DelimitedType"))),
         # the header must not promise more than the data that follows it
         "DelimiterHeaderError": lambda s: AND(s.with_delimiter_header, ISINST(s.schema, "DelimitedType"),
@@ -727,7 +727,6 @@ class _Deserialize:
 
     def post(s):
         return {
-            "not-a-service": NOT(ISINST(s.schema, "ServiceType")),
             "header-flag-only-for-delimited": IMPLIES(s.with_delimiter_header, ISINST(s.schema, "DelimitedType")),
             "header-not-clamped": IMPLIES(AND(s.with_delimiter_header, ISINST(s.schema, "DelimitedType")),
                                           lambda: 8 * TOP_HEADER(s.data) <= MAX0(8 * DLEN(s.data) - 32)),
